@@ -9,7 +9,9 @@ VARIABLES chain, st
 S0 == [e \in {"e1", "e2"} |->
         [live |-> IF e = "e1" THEN "live" ELSE "recycled",
          r |-> [a \in {"name", "cred"} |-> <<e, a>>],
-         n |-> [a \in {"lmc"} |-> <<e, a>>]]]
+         n |-> [a \in {"lmc"} |-> <<e, a>>],
+         \* a keyed multi-value with a SHARED outer key (two members under app1) and a second key
+         p |-> [a \in {"apppw"} |-> << <<"app1", "l1">>, <<"app1", "l2">>, <<"app2", "l1">> >>]]]
 
 Init == chain = <<>> /\ st = S0
 Next == \E a \in Trans :
@@ -20,6 +22,14 @@ Spec == Init /\ [][Next]_<<chain, st>>
 
 \* L2 against L1: after any chain the store still observes as the initial one.
 Inv == chain = <<>> \/ L1Step(S0, st, chain[Len(chain)], CHOOSE r \in OkResult(chain[Len(chain)]) : TRUE)
+\* keyed multi-values: every set of (outer, inner) pairs over 2 outer keys x 2 inner ids, in every stored order of
+\* up to 4 records, decodes back to itself (L2 loader against L1); the overwriting loader is refuted (vacuity guard)
+Outer == {"k1", "k2"}
+Inner == {"i1", "i2"}
+Seqs == UNION {[1..n -> Outer \X Inner] : n \in 0..4}
+NoDup(s) == \A i, j \in DOMAIN s : i # j => s[i] # s[j]
+ASSUME \A s \in {x \in Seqs : NoDup(x)} : PairsOf(Decode(s)) = PairSet(s)
+ASSUME \E s \in {x \in Seqs : NoDup(x)} : PairsOf(DecodeOverwrite(s)) # PairSet(s)
 \* every chain is handed to the harness (direction A)
 Emit == chain = <<>> \/ PrintT(<<"CASE">> \o chain)
 =============================================================================
